@@ -161,3 +161,85 @@ func WithDeadline(parent context.Context, at time.Time) (context.Context, contex
 	}
 	return WithTimeout(parent, time.Until(at))
 }
+
+// Timer mirrors the surface of *time.Timer that code normally uses (C, Stop, Reset).
+type Timer struct {
+	C    <-chan time.Time
+	real *time.Timer
+	vt   *vtimer
+	ch   chan time.Time
+	f    func()
+}
+
+//go:norace
+func (t *Timer) arm(e *Exec, d time.Duration) {
+	at := time.Now().Add(d)
+	if t.f != nil {
+		f := t.f
+		t.vt = e.addTimer(d, func() { Go(f) })
+		return
+	}
+	ch := t.ch
+	t.vt = e.addTimer(d, func() {
+		select {
+		case ch <- at:
+		default:
+		}
+	})
+}
+
+// NewTimer is time.NewTimer in virtual time.
+//
+//go:norace
+func NewTimer(d time.Duration) *Timer {
+	e := cur
+	if e == nil || e.aborted {
+		rt := time.NewTimer(d)
+		return &Timer{C: rt.C, real: rt}
+	}
+	ch := make(chan time.Time, 1)
+	t := &Timer{C: ch, ch: ch}
+	t.arm(e, d)
+	return t
+}
+
+// AfterFunc is time.AfterFunc in virtual time: f runs as a new task when the timer fires.
+//
+//go:norace
+func AfterFunc(d time.Duration, f func()) *Timer {
+	e := cur
+	if e == nil || e.aborted {
+		return &Timer{real: time.AfterFunc(d, f)}
+	}
+	t := &Timer{f: f}
+	t.arm(e, d)
+	return t
+}
+
+// Stop prevents the timer from firing; it reports whether the call stopped it.
+//
+//go:norace
+func (t *Timer) Stop() bool {
+	if t.real != nil {
+		return t.real.Stop()
+	}
+	if t.vt == nil || t.vt.done {
+		return false
+	}
+	t.vt.done = true
+	return true
+}
+
+// Reset re-arms the timer.
+//
+//go:norace
+func (t *Timer) Reset(d time.Duration) bool {
+	if t.real != nil {
+		return t.real.Reset(d)
+	}
+	was := t.Stop()
+	if e := cur; e != nil && !e.aborted {
+		t.arm(e, d)
+	}
+	return was
+}
